@@ -195,8 +195,8 @@ def _lonw(c):
   src = 2 * math.pi * np.array(c['key']['src'], dtype=np.float64) / P
   tgt = 2 * math.pi * np.array(c['key']['tgt'], dtype=np.float64) / P
   truth, algw, algok = _lon_expect(c)
-  if c['safe'] and not algok:
-    raise common.MachineryError('spec inconsistency: Safe configuration with algorithm != geometry')
+  if not algok:
+    raise common.MachineryError('spec inconsistency: documented configuration with algorithm != geometry')
   got = np.asarray(_jit('lon_w', hi.conservative_longitude_weights)(src, tgt), dtype=np.float64)
   # (1) the code follows the spec's model of its algorithm (also where that algorithm is wrong);
   # not decidable when some alignment is an exact half-period tie (rounding decides)
@@ -571,6 +571,12 @@ def run(ctx):
             for m in ('RegridVert', 'RegridLon', 'RegridLat')]
     rv, rl, ra = [f.result() for f in futs]
   ctx.tlc_runs.sort(key=lambda r: r.module)
+  # design-level counterexample of the repaired defect: aligning the two ends of a source interval
+  # separately (as found) is not geometric inside the documented domain
+  rf = ctx.tlc('RegridLon', 'RegridLon_asfound.cfg', expect_violation=True, tag='asfound', coverage=False, workers=4)
+  if rf.violated != 'AsFoundSound':
+    raise common.MachineryError('RegridLon_asfound.cfg was expected to refute AsFoundSound')
+  ctx.notes['design_level_counterexample'] = 'RegridLon_asfound.cfg: AsFoundSound violated (end-by-end phase alignment, repaired in /repo)'
   ctx.require_actions(rv, ['SigmaBoundaries', 'Overlap', 'Normalize', 'Regrid'])
   ctx.require_actions(rl, ['Bounds', 'Overlap', 'Normalize', 'Apply'])
   ctx.require_actions(ra, ['Bounds', 'Overlap', 'Normalize', 'Apply'])
